@@ -107,6 +107,12 @@ def run(ctx):
             recs.append(dict(kind='auto', has_classes=has, d=d, n=n, nc=nc, ncls=ncls, impl=k))
             ctx.seen(('auto', has, d, n, nc, ncls), True)
   # ---- 3. components_from_metric
+  # recorded finding: the symmetry test has numpy's absolute tolerance 1e-8, so a non-symmetric matrix with entries below it passes
+  ctx.count('components_from_metric', 1)
+  oc_small, _ = outcome(lambda: components_from_metric(2.0 ** -34 * np.array([[2.0, 1.0], [0.5, 2.0]])))
+  if oc_small != 'ValueError':
+    ctx.fail_input('components_from_metric', 'components_from_metric(2**-34 * [[2, 1], [0.5, 2]]) accepts a non-symmetric matrix',
+                   dict(M=(2.0 ** -34 * np.array([[2.0, 1.0], [0.5, 2.0]])).tolist()), observed=oc_small)
   kinds = ['pd', 'psd', 'indefinite', 'diag', 'diag_neg', 'nonsym', 'diag_near', 'dense_near']
   for i in range(600 if thorough else 120):
     d = int(rng.integers(1, 9))
@@ -116,6 +122,10 @@ def run(ctx):
       if d == 1:
         continue
       M[0, d - 1] += 1.0 + abs(M[0, d - 1])
+      # ... in any unit: being symmetric does not depend on the scale of the entries (covariances of data in small units are 1e-10)
+      unit = 2.0 ** int([0, -10, -20, 30, 60, 10][(i // len(kinds)) % 6])     # (entries below 1e-8: the recorded finding, tested once below)
+      M = M * unit
+      ctx.hist('cfm.nonsym_unit', 'unit 2^%d' % int(np.log2(unit)))
     elif kind in ('diag_near', 'dense_near'):
       # PSD up to rounding: the most negative eigenvalue is a fraction of the default tolerance |w|max * d * eps
       wv = np.abs(rng.standard_normal(d)) + 0.25
@@ -264,6 +274,7 @@ def run(ctx):
       S[:, 0] = 0                                  # singular PSD
       for bad, want, what in ((S, 'LinAlgError', 'singular matrix accepted although strict_pd'),
                               (A0 + np.triu(np.ones((d, d)), 1), 'ValueError', 'non-symmetric matrix accepted'),
+                              ((A0 + np.triu(np.ones((d, d)), 1)) * 2.0 ** -40, 'ValueError', 'non-symmetric matrix (entries of the order 1e-12) accepted'),
                               (A0[:d - 1, :d - 1] if d > 1 else np.eye(2), 'ValueError', 'wrong shape accepted'),
                               (-A0, 'NonPSDError', 'negative definite matrix accepted')):
         oc, M = outcome(lambda: _initialize_metric_mahalanobis(inp_arr, bad, strict_pd=True))
